@@ -100,6 +100,7 @@ func (e *Exec) mapLookup(fr *Frame, st *State, x *ssa.Lookup) Value {
 }
 
 func (e *Exec) mapUpdate(fr *Frame, st *State, x *ssa.MapUpdate) {
+	e.onMapUpdate(fr, st, x)
 	m := e.term(fr, st, x.Map)
 	e.safety(st, "safe:nilmap", render(x.Map, 0), Not(Eq(m, IntLit(0))), e.posOf(x))
 	e.assume(st.pc, Not(Eq(m, IntLit(0))))
@@ -166,4 +167,52 @@ func mapModComps(t types.Type) []string {
 		return nil
 	}
 	return []string{mi.md, mi.mv, mi.ml}
+}
+
+// onMapUpdate checks the contract's on-map-update assertions: the map must
+// have been loaded from the named struct field; $owner is the struct it was
+// loaded from, $key / $value what is stored, $was the previous value (zero if absent).
+func (e *Exec) onMapUpdate(fr *Frame, st *State, x *ssa.MapUpdate) {
+	if fr.parent != nil {
+		return
+	}
+	c := e.contractOf(fr.fn)
+	if c == nil || len(c.OnMapUpdates) == 0 {
+		return
+	}
+	ld, ok := x.Map.(*ssa.UnOp)
+	if !ok {
+		return
+	}
+	fa, ok := ld.X.(*ssa.FieldAddr)
+	if !ok {
+		return
+	}
+	stt := derefStruct(fa.X.Type())
+	if stt == nil {
+		return
+	}
+	fname := stt.s.Field(fa.Field).Name()
+	mt, ok := x.Map.Type().Underlying().(*types.Map)
+	if !ok {
+		return
+	}
+	for i, om := range c.OnMapUpdates {
+		if om.Field != fname {
+			continue
+		}
+		m := e.term(fr, st, x.Map)
+		k := e.term(fr, st, x.Key)
+		en := e.newEnv(fr, st, e.entry)
+		en.point = x
+		en.vars["$key"] = ev{k, mt.Key()}
+		en.vars["$value"] = ev{e.val(fr, x.Value), mt.Elem()}
+		en.vars["$was"] = ev{e.mapValue(st, m, mt, k), mt.Elem()}
+		en.vars["$owner"] = ev{e.val(fr, fa.X), fa.X.Type()}
+		lbl := om.Label
+		if lbl == "" {
+			lbl = fmt.Sprint(i + 1)
+		}
+		e.oblige(st, "on-map-update", fname+":"+lbl, e.evalClause(en, &Clause{Text: om.Text, Expr: om.Expr}), e.posOf(x))
+	}
 }
